@@ -135,23 +135,27 @@ def run_content(ctx, content):
                     run(["subhypergraph_by_orders", "sizes", list(ss), keep], exp, lambda ss=ss, keep=keep: h.subhypergraph_by_orders(sizes=list(ss), keep_nodes=keep))
                     run(["subhypergraph_by_orders", "orders", [s - 1 for s in ss], keep], exp,
                         lambda ss=ss, keep=keep: h.subhypergraph_by_orders(orders=[s - 1 for s in ss], keep_nodes=keep))
-        # largest component (no filter): any component of maximal size is acceptable
-        comps = components(content)
-        if comps:
+        # largest component, without and with an order/size filter: any component of maximal size is acceptable
+        for f in [dict()] + [dict(size=s_) for s_ in allsizes] + [dict(order=s_ - 1) for s_ in allsizes]:
+            keep = (lambda e: True) if not f else (lambda e, f=f: len(e) == (f["size"] if "size" in f else f["order"] + 1))
+            comps = components(dict(content, edges=[x for x in content["edges"] if keep(x[0])]))
+            if not comps:
+                continue
+            call = ["largest", f]
             try:
-                res = h.subhypergraph_largest_component()
+                res = h.subhypergraph_largest_component(**f)
                 got_nodes = set(res.get_nodes())
                 mx = max(len(c) for c in comps)
                 ok = any(got_nodes == c for c in comps if len(c) == mx)
-                ctx.check(ok, "Hypergraph.subhypergraph_largest_component", "node set is a largest connected component", dict(content=content),
+                ctx.check(ok, "Hypergraph.subhypergraph_largest_component", "node set is a largest connected component (under the filter)", dict(content=content, filter=f),
                           expected=[sorted(c, key=repr) for c in comps if len(c) == mx], observed=sorted(got_nodes, key=repr),
-                          key="Hypergraph.subhypergraph_largest_component:node set is a largest connected component", replay=dict(content=content, call=["largest"]))
+                          key="Hypergraph.subhypergraph_largest_component:node set is a largest connected component", replay=dict(content=content, call=call))
                 if ok:
                     check_extract(ctx, content, "Hypergraph.subhypergraph_largest_component", "", res,
-                                  expect(content, lambda e: set(e) <= got_nodes, sorted(got_nodes, key=repr)), ["largest"])
+                                  expect(content, lambda e: set(e) <= got_nodes, sorted(got_nodes, key=repr)), call)
             except Exception as ex:     # noqa: BLE001
-                ctx.check(False, "Hypergraph.subhypergraph_largest_component", "does not raise on admissible input", dict(content=content), observed=type(ex).__name__,
-                          key="Hypergraph.subhypergraph_largest_component:raises-on-admissible-input", replay=dict(content=content, call=["largest"]))
+                ctx.check(False, "Hypergraph.subhypergraph_largest_component", "does not raise on admissible input", dict(content=content, filter=f), observed=type(ex).__name__,
+                          key="Hypergraph.subhypergraph_largest_component:raises-on-admissible-input", replay=dict(content=content, call=call))
     maxs = max([esize(content, e) for e, _, _ in content["edges"]] + [2])
     for f in [dict(order=o) for o in range(0, maxs)] + [dict(size=s) for s in range(1, maxs + 1)]:
         for up in (False, True):
